@@ -162,6 +162,9 @@ class C03(Monitor):
         text = str(val)
         ok, _ = rx.compiles(text)
         acc.count('values_checked')
+        if not ok and tr.op.family == 'call' and re.search(r'unknown group name|invalid group reference', rx.compile_error(text) or ''):
+            acc.count('undefined_group_reference_excepted_by_the_property')
+            return
         if not ok and rx.inherent_failure(tr.ref, [o.text for o in tr.operands]):
             acc.count('uncompilable_by_construction_of_the_expression')
             return
@@ -375,10 +378,6 @@ class C05(Monitor):
                 # pinned by the suite as 'x|' ... the documentation leaves it open
                 continue
             got = ('text', str(v)) if k == 'ok' else ('raise', _exc_name(v))
-            if fam == 'quant' and texts[0] != '' :
-                # exactly(0) of a non-repeatable operand etc.: only the value is asserted
-                if got[0] == 'raise':
-                    continue
             if got != expected and got[0] == 'text' and expected[0] == 'text' \
                     and (got[1] == '') == (expected[1] == '') \
                     and rx.equiv(got[1], expected[1])[0] in ('tree', 'texts'):
